@@ -219,6 +219,10 @@ func mergeConfigDict(opts *options, to, from *Config) Error {
 		to.fields.set(k, merged.cpy(ctx))
 	}
 
+	if replaced != nil && from.metadata != nil && len(to.fields.array()) == 0 {
+		// the dictionary as a whole comes from the new operand now
+		to.metadata = from.metadata
+	}
 	ok = true
 	return nil
 }
